@@ -185,8 +185,11 @@ Section Chars.
     | c :: r => if starts_with s pat then [] else c :: until_sub r pat
     end.
 
+  (* uri.split(XMLNS)[1], what split_uri returned as local name before the fix for F6c *)
+  Definition xml_local_old (u : str) : str := until_sub (skipn (length XMLNS) u) XMLNS.
+
   Definition split_uri (strict : bool) (u : str) : option (str * str) :=
-    if starts_with u XMLNS then Some (XMLNS, until_sub (skipn (length XMLNS) u) XMLNS) else
+    if starts_with u XMLNS then Some (XMLNS, skipn (length XMLNS) u) else
     let n := length u in
     match first_bad (rev u) 0 with
     | None => None
@@ -227,36 +230,25 @@ Record mst := {
   cache : dict qn;         (* NamespaceManager.__cache *)
   cache_s : dict qn;       (* NamespaceManager.__cache_strict *)
   strie : list str;        (* keys of __strie; its values alias nodes of __trie *)
-  trie_ : trie;            (* __trie *)
-  bad : bool               (* has the store's non-override branch been entered with the prefix
-                              and the namespace both bound elsewhere (finding F6b)? *)
+  trie_ : trie             (* __trie *)
 }.
 
 Definition m_init : mst :=
-  {| p2n := []; n2p := []; cache := []; cache_s := []; strie := []; trie_ := T []; bad := false |}.
+  {| p2n := []; n2p := []; cache := []; cache_s := []; strie := []; trie_ := T [] |}.
 
 Definition set_maps (s : mst) (a b : dict str) : mst :=
-  {| p2n := a; n2p := b; cache := cache s; cache_s := cache_s s; strie := strie s; trie_ := trie_ s; bad := bad s |}.
-Definition set_bad (s : mst) (f : bool) : mst :=
-  {| p2n := p2n s; n2p := n2p s; cache := cache s; cache_s := cache_s s; strie := strie s; trie_ := trie_ s; bad := f |}.
+  {| p2n := a; n2p := b; cache := cache s; cache_s := cache_s s; strie := strie s; trie_ := trie_ s |}.
 Definition set_caches (s : mst) (c cs : dict qn) : mst :=
-  {| p2n := p2n s; n2p := n2p s; cache := c; cache_s := cs; strie := strie s; trie_ := trie_ s; bad := bad s |}.
+  {| p2n := p2n s; n2p := n2p s; cache := c; cache_s := cs; strie := strie s; trie_ := trie_ s |}.
 Definition set_tries (s : mst) (st : list str) (t : trie) : mst :=
-  {| p2n := p2n s; n2p := n2p s; cache := cache s; cache_s := cache_s s; strie := st; trie_ := t; bad := bad s |}.
+  {| p2n := p2n s; n2p := n2p s; cache := cache s; cache_s := cache_s s; strie := st; trie_ := t |}.
 
 Definition coalesce (a b : option str) : option str := match a with Some _ => a | None => b end.
 Definition odefault (a : option str) (d : str) : str := match a with Some x => x | None => d end.
 
-(* the F6b region: store.bind(prefix, ns, override=False) with prefix bound to another
-   namespace and ns bound to some prefix *)
-Definition bad_bind (s : mst) (prefix ns : str) (ov : bool) : bool :=
-  negb ov &&
-  match dget (p2n s) prefix, dget (n2p s) ns with
-  | Some b, Some _ => negb (str_eqb b ns)
-  | _, _ => false
-  end.
-
-(* Memory.bind / SimpleMemory.bind; false = KeyError from a [del] *)
+(* Memory.bind / SimpleMemory.bind, as repaired by the "fix:" commit for F6b: without
+   override an existing binding of the prefix or of the namespace wins.
+   false = KeyError from a [del] *)
 Definition store_bind (s : mst) (prefix ns : str) (ov : bool) : mst * bool :=
   let bn := dget (p2n s) prefix in
   let bp := coalesce (dget (n2p s) ns)
@@ -271,9 +263,20 @@ Definition store_bind (s : mst) (prefix ns : str) (ov : bool) : mst * bool :=
         end
     end
   else
-    let k := odefault bn ns in
-    let v := odefault bp prefix in
-    (set_bad (set_maps s (dset (p2n s) v k) (dset (n2p s) k v)) (bad s || bad_bind s prefix ns ov), true).
+    match bn, bp with
+    | None, None => (set_maps s (dset (p2n s) prefix ns) (dset (n2p s) ns prefix), true)
+    | _, _ => (s, true)
+    end.
+
+(* the non-override branch as it was before that fix (finding F6b), kept so that the
+   refutation of the bijection on the historical code stays checkable *)
+Definition store_bind_old_noov (s : mst) (prefix ns : str) : mst :=
+  let bn := dget (p2n s) prefix in
+  let bp := coalesce (dget (n2p s) ns)
+                     (match bn with Some b => dget (n2p s) b | None => None end) in
+  let k := odefault bn ns in
+  let v := odefault bp prefix in
+  set_maps s (dset (p2n s) v k) (dset (n2p s) k v).
 
 (* NamespaceManager._store_bind (as repaired by the "fix:" commit for F6a) *)
 Definition m_store_bind (s : mst) (prefix ns : str) (ov : bool) : mst * bool :=
@@ -481,8 +484,7 @@ Section Manager.
   | ONorm (u : str)
   | OExpand (c : str)
   | OReset
-  | OOther (k : N).   (* an operation outside the model (parse, serialize, add), conformance runs only;
-                         k = 1: a JSON-LD parse (finding F6d) *)
+  | OOther.     (* an operation outside the model (parse, serialize, add); conformance runs only *)
 
   Inductive res :=
   | RUnit
@@ -529,7 +531,7 @@ Section Manager.
     | OExpand c =>
         (s, match m_expand s c with inl x => RS x | inr e => RExn e end)
     | OReset => (m_reset s, RUnit)
-    | OOther _ => (s, RUnit)
+    | OOther => (s, RUnit)
     end.
 
   (* what is observed after every operation *)
@@ -623,7 +625,7 @@ Definition res_ok (l : list (str * str)) (o : op) (r : res) : bool :=
   | OStrict u _, RT q => qn_ok l u q
   | OExpand c, RS s => expand_ok l c s
   | OReset, RUnit => true
-  | OOther _, _ => true
+  | OOther, _ => true
   | OBind _ _ _ _, _ => false
   | OReset, _ => false
   | _, RExn _ => true          (* ValueError (cannot be split / invalid) or KeyError (generate=False) *)
@@ -658,30 +660,6 @@ Definition model_final (c : case) : mst :=
 
 Definition spec_ok (c : case) (o : obs) : bool := all_ok (c_ops c) o.
 
-(* the IRI an operation asks about *)
-Definition op_iri (o : op) : option str :=
-  match o with
-  | OQname u | OCurie u _ | OCompute u _ | OStrict u _ | ONorm u => Some u
-  | _ => None
-  end.
-
-Fixpoint occurs (pat s : str) : bool :=
-  match s with
-  | [] => false
-  | _ :: r => starts_with s pat || occurs pat r
-  end.
-
-(* F6c region: the IRI starts with the XML namespace and contains it a second time *)
-Definition xml_twice (u : str) : bool :=
-  starts_with u XMLNS && occurs XMLNS (skipn (length XMLNS) u).
-
-(* known-finding triggers: 1 = F6b (dynamic: the store's non-override branch was reached
-   with prefix and namespace both bound elsewhere), 2 = F6c *)
-Definition kf (c : case) : N :=
-  if bad (model_final c) then 1%N
-  else if existsb (fun o => match op_iri o with Some u => xml_twice u | None => false end) (c_ops c)
-  then 2%N else 0%N.
-
 (* conformance runs (default bindings, parse, serialize): there is no model of these
    operations; the per-step checker alone is applied to what rdflib shows.  To keep the
    generated files small the observation carries a string table and refers to it by index. *)
@@ -710,7 +688,3 @@ Definition conf_model (c : case) : cobs := ([], []).
 Definition conf_eqb (a b : cobs) : bool := true.
 Definition conf_spec (c : case) (o : cobs) : bool :=
   match snd o with [] => true | l => all_ok (c_ops c) (map (dec_snap (fst o)) l) end.
-
-(* F6d region: the JSON-LD parser puts a second NamespaceManager on the store *)
-Definition conf_kf (c : case) : N :=
-  if existsb (fun o => match o with OOther 1 => true | _ => false end) (c_ops c) then 3%N else 0%N.
